@@ -691,7 +691,7 @@ class Interp:
             vals.append(self.snapshot(st, a, info['site']))
         term = ('call', name, info['targs'], tuple(vals))
         for a, ty in zip(args, info['argtys'] + [''] * len(args)):
-            if ty.startswith('&mut ') or 'DepsMut' in ty:
+            if ('Storage' in ty and ty.startswith('&mut ')) or 'DepsMut' in ty:
                 # an unmodelled callee that can mutate through its argument: recorded so that rules can refuse to trust it
                 st.effects.append(('opaque_mut_call', name, None, ty, None, info['site'], st.stack, len(st.facts)))
             if ty.startswith('&mut ') and a[0] == 'ref':
@@ -780,10 +780,11 @@ def callsite_inventory(prog):
             out.append({'callee': fn['def'], 'resolved': res['def'] if res else None, 'caller': d, 'span': t['sp'], 'consts': consts, 'from_expansion': t.get('exp', False)})
     return out
 
-def analyse(facts_path, out_path=None, verbose=False):
+def analyse(facts_path, out_path=None, verbose=False, merge_bool=True):
     facts = json.load(open(facts_path))
     prog = Program(facts)
-    it = Interp(prog)
+    it = Interp(prog, budget=12000000 if merge_bool else 60000000)
+    it.merge_bool = merge_bool
     roots = find_roots(prog)
     result = {'roots': {}, 'nonce': facts.get('nonce'), 'unmodelled': None, 'steps': 0,
               'misc': facts['misc'], 'adts': facts['adts'], 'entry': {}}
